@@ -756,6 +756,7 @@ func (h *histRun) finish(ok bool) *HistResult {
 		h.checkC03()
 		h.checkBoundary()
 		h.checkTokenResets()
+		h.checkAccessCurrency()
 	}
 	res.Counters = verifhook.Counters()
 	res.Notes = verifhook.Notes()
